@@ -12,7 +12,7 @@ func VP_C15_crash() {
 	vpCoordLimit = 2
 	if vp.Tier() == 1 {
 		K, S = 1+vp.Choice(3), 7
-		vpCoordLimit = 4
+		vpCoordLimit = 3
 	}
 	chunks := vpArbitraryState(K, S)
 	img := vpBuild(chunks, S)
